@@ -37,6 +37,12 @@ var c09Forms = []c09Form{
 	{"dash-before-at", func(k, a string) string { return "// -@" + k + a }},
 	{"nbsp-before-at", func(k, a string) string { return "//\u00a0@" + k + a }},
 	{"vtab-before-at", func(k, a string) string { return "//\v@" + k + a }},
+	// commented-out annotations: the keyword follows a SECOND comment marker inside the line
+	{"commented-out", func(k, a string) string { return "// // @" + k + a }},
+	{"quadruple-slash", func(k, a string) string { return "//// @" + k + a }},
+	{"was-annotation", func(k, a string) string { return "// was: // @" + k + a + " (removed)" }},
+	{"quoted", func(k, a string) string { return "// \"// @" + k + a + "\" is the syntax" }},
+	{"after-colon", func(k, a string) string { return "// TODO: @" + k + a }},
 }
 
 // c09Site is one attachment site. TopLevelDoc says whether a comment placed there is a doc
